@@ -3,8 +3,9 @@ CONSTANTS
   Langs = {"c", "cpp"}
   BaseSet = "families"
   MaxMut = 4
+  MinMut = 2
   MaxBoth = 1
-  Star = TRUE
+  Star = FALSE
   HashBits = 32
 INVARIANT Emit
 CHECK_DEADLOCK FALSE
